@@ -186,8 +186,11 @@ def run_c03(ctx) -> Corr:
                 h = Hist(pv, True)
                 if known:
                     h.preload = [("node", 1, 17, "2.0", "", "", 0, 0, False, False), ("child", 1, 0, 0, 6, "c")]
+                # quick tier: every version payload is used, but spread over the 20 (version, known, pv) combinations
+                combo = len(hists)
+                vps = gw.VERSION_PAYLOADS if ctx.tier != "quick" else gw.VERSION_PAYLOADS[combo % 5::5]
                 lines = ([f"1;255;3;0;0;{p}" for p in gw.BATTERY_PAYLOADS] + [f"1;255;3;0;22;{p}" for p in gw.HEARTBEAT_PAYLOADS]
-                         + [f"0;255;3;0;2;{p}" for p in gw.VERSION_PAYLOADS] + [f"0;255;0;0;18;{p}" for p in gw.VERSION_PAYLOADS]
+                         + [f"0;255;3;0;2;{p}" for p in vps] + [f"0;255;0;0;18;{p}" for p in vps]
                          + [f"1;255;3;0;{t};x" for t in range(-1, 36)] + [f"1;255;4;0;{t};x" for t in range(-1, 8)])
                 for l in lines:
                     h.ops.append(("recv", l, (), gw.DEFAULT_TIME))
@@ -308,6 +311,48 @@ def _stream_bytes(corr: Corr, ctx) -> None:
                                  {"bytes": d.hex(), "outcome": out})
                 corr.case(("bytes", d.hex(), _), True, None)
                 corr.count("stream:" + out.split(" ")[0])
+        # bytes that arrive in pieces while a read is in progress (no end of stream): runs without a newline several
+        # times the reader's limit, then a terminator and a well-formed line
+        for chunks in ([b"x" * 200, b"y" * 200, b"\n0;255;3;0;9;ok\n"], [b"x" * 70, b"y" * 70, b"z" * 70, b"\n"],
+                       [b"x" * 200 + b"\n", b"0;255;3;0;9;ok\n"], [b"0;255;3;0;9;" + b"p" * 100, b"q" * 100 + b"\n0;255;3;0;9;ok\n"],
+                       [b"\xff" * 100, b"\xfe" * 100, b"\n"]):
+            tr = Mem(b"")
+            g = Gateway(tr)
+            await tr.connect()
+            reader = tr.reader
+            reader._eof = False          # noqa: SLF001  the connection stays open: more may arrive
+            pending = list(chunks)
+            for attempt in range(6):
+                task = asyncio.ensure_future(anext(g.listen()))
+                for _ in range(40):
+                    await asyncio.sleep(0)
+                    if task.done():
+                        break
+                    if pending and not len(reader._buffer):   # noqa: SLF001
+                        reader.feed_data(pending.pop(0))
+                if not task.done():
+                    if pending:
+                        reader.feed_data(pending.pop(0))
+                        for _ in range(40):
+                            await asyncio.sleep(0)
+                            if task.done():
+                                break
+                if not task.done():
+                    task.cancel()
+                    await asyncio.wait([task], timeout=1)
+                    corr.count("stream-chunks:still-waiting")
+                    continue
+                try:
+                    task.result()
+                    out = "ok"
+                except exc.AIOMySensorsError as e:
+                    out = "lib " + type(e).__name__
+                except BaseException as e:  # noqa: BLE001
+                    out = "foreign " + type(e).__name__
+                    corr.violate("a non-library exception escaped listen() on a stream transport fed in pieces",
+                                 {"chunks": [c[:8].hex() + f"..({len(c)} bytes)" for c in chunks], "attempt": attempt, "outcome": out})
+                corr.case(("chunks", len(chunks), chunks[0][:4].hex(), attempt), True, None)
+                corr.count("stream-chunks:" + out.split(" ")[0])
     asyncio.run(go())
 
 
